@@ -16,6 +16,7 @@ def _attr(ex, obj, name, fr):
         if d is None:
             d = VDtype(ex.st.fresh_int("xr_dtype"))
             ex.st.assume(z3.And(d.v >= 0, d.v < len(DTYPES)))
+        ex.st.events.append(("xr_dtype", obj.info.get("label"), d))
         return d
     if name in ("is_empty",):
         b = obj.info.get("is_empty")
